@@ -176,6 +176,11 @@ def handle (toks : List String) (impl : String) : Verdict :=
             else none }
       | _, _ => badOp "numbers"
     | _ => badOp "bomb result"
+  | ["notifbig", nd, ulen] =>
+    { oracle := match impl.splitOn " " with
+        | [len, rt] => if rt = "same" then none
+            else some s!"a notification file written by the library ({nd} deltas, URIs of about {ulen} characters, {len} octets) does not parse back to an equal value: {rt}"
+        | _ => some "unreadable result" }
   | _ => badOp "unknown op"
 
 end Driver.C09
